@@ -26,6 +26,21 @@ pub struct Inst {
 
 pub struct Case {
     pub insts: Vec<Inst>,
+    /// selector strings parsed repeatedly on every thread: supported, valid CSS that lol-html
+    /// refuses, and syntax errors
+    pub parse_sels: Vec<&'static str>,
+}
+
+const PARSE_POOL: &[&str] = &[
+    "div", "DIV.c#i[x=y i]", "p:nth-child(2n+1)", "span:first-child", "a > b c", ":not(p, .x)", "a + b", "a ~ b", ":last-child", "p:empty", ":only-child", "[*|x]", ":not(a > b)", "a::before", "div >", "", "p:nth-of-type(odd)", "li:nth-last-child(2)", "svg|a", "a:hover", "[x=]",
+];
+
+/// Parse result as a comparable string.
+fn parse_outcome(s: &str) -> String {
+    match s.parse::<Selector>() {
+        Ok(_) => "Ok".into(),
+        Err(e) => format!("Err({e:?})"),
+    }
 }
 
 fn inst(t: &mut Tape<'_>) -> Inst {
@@ -60,7 +75,9 @@ pub fn decode(tape: &[u16]) -> Case {
     let base: Vec<Inst> = (0..distinct).map(|_| inst(&mut t)).collect();
     // 16 instances: copies of the distinct ones (equal configurations on purpose) in tape order
     let insts = (0..16).map(|i| base[(i + t.below(distinct)) % distinct].clone()).collect();
-    Case { insts }
+    let n = t.range(2, 5);
+    let parse_sels = (0..n).map(|_| *t.pick(PARSE_POOL)).collect();
+    Case { insts, parse_sels }
 }
 
 fn same(a: &RunOut, b: &RunOut) -> Result<(), String> {
@@ -132,6 +149,18 @@ pub fn check_case(c: &Case, st: &mut Stats) -> PResult {
         st.eval();
         same(&seq[k], &again).map_err(|e| Failure::new(format!("C18: repeating the same rewrite gave a different result: {e}")))?;
     }
+    // selector parsing is a function of the string: the outcome on a brand-new thread is the
+    // reference for repeated parses on this (long-lived) thread and on the 16 worker threads
+    let sels = c.parse_sels.clone();
+    let parse_ref: Vec<String> = std::thread::spawn(move || sels.iter().map(|s| parse_outcome(s)).collect()).join().map_err(|_| Failure::new("C18: selector parsing panicked on a fresh thread".to_string()))?;
+    for round in 0..2 {
+        for (s, want) in c.parse_sels.iter().zip(parse_ref.iter()) {
+            let got = guard(|| parse_outcome(s)).unwrap_or_else(|p| format!("panic: {p}"));
+            ensure!(got == *want, "C18: parsing selector {s:?} on a long-lived thread (round {round}) gave {got}, on a fresh thread {want}: the outcome depends on the thread's history");
+        }
+    }
+    st.label_if(parse_ref.iter().any(|r| r.starts_with("Err")), "refused_selector_parsed_repeatedly");
+    let parse_ref = &parse_ref;
     // 16 rewriters on 16 threads with yields/spins between writes
     let step = AtomicUsize::new(0);
     let barrier = std::sync::Barrier::new(c.insts.len());
@@ -153,9 +182,20 @@ pub fn check_case(c: &Case, st: &mut Stats) -> PResult {
                             std::thread::yield_now();
                         }
                     });
-                    // concurrent selector parsing
+                    // concurrent selector parsing (twice per thread)
                     for s in &i.cfg.sels {
-                        let _ = s.sel.parse::<Selector>();
+                        let (a, b) = (parse_outcome(&s.sel), parse_outcome(&s.sel));
+                        if a != b {
+                            return Err(format!("parsing selector {:?} twice on one thread gave {a} then {b}", s.sel));
+                        }
+                    }
+                    for _ in 0..2 {
+                        for (s, want) in c.parse_sels.iter().zip(parse_ref.iter()) {
+                            let got = parse_outcome(s);
+                            if got != *want {
+                                return Err(format!("parsing selector {s:?} concurrently gave {got}, alone on a fresh thread {want}"));
+                            }
+                        }
                     }
                     let end = step.fetch_add(1, Ordering::SeqCst);
                     same(reference, &r)?;
@@ -201,7 +241,7 @@ impl Prop for C18 {
         "C18"
     }
     fn rule(&self) -> String {
-        "case = batch of 16 rewriter instances drawn from 1-4 distinct (input, encoding, schedule, observer/mutating configuration incl. injected handler faults and tiny memory limits) - equal and different configurations mixed; each instance is run sequentially (reference, and repeated), then all 16 concurrently on 16 threads with tape-chosen yield counts before every write plus concurrent selector parsing, and one instance as a send::HtmlRewriter moved to a fresh thread after every write; oracle: every concurrent/migrated instance's sink calls, event log and error equal its own sequential run. non-trivial = at least two instances with different inputs overlapped in time (start/end stamps from an atomic step counter); distinct by hash of the batch's inputs".into()
+        "case = batch of 16 rewriter instances drawn from 1-4 distinct (input, encoding, schedule, observer/mutating configuration incl. injected handler faults and tiny memory limits) - equal and different configurations mixed; each instance is run sequentially (reference, and repeated), then all 16 concurrently on 16 threads with tape-chosen yield counts before every write plus concurrent and repeated parsing of selector strings (supported, valid-CSS-but-refused, syntax errors: the outcome must equal that on a brand-new thread), and one instance as a send::HtmlRewriter moved to a fresh thread after every write; oracle: every concurrent/migrated instance's sink calls, event log and error equal its own sequential run. non-trivial = at least two instances with different inputs overlapped in time (start/end stamps from an atomic step counter); distinct by hash of the batch's inputs".into()
     }
     fn assumptions(&self) -> Vec<String> {
         vec!["the OS schedule is sampled, not controlled: this detects shared mutable state (any overlap exposes it), not a defect needing one particular interleaving (DESIGN section 7)".into(), "the C API's thread-local last error is checked by C17's harness".into()]
@@ -217,6 +257,6 @@ impl Prop for C18 {
     }
     fn describe(&self, tape: &[u16]) -> Value {
         let c = decode(tape);
-        json!({"instances": c.insts.iter().map(|i| json!({"input": show(&i.input), "cuts": i.cuts, "cfg": i.cfg.to_json(), "pauses": i.pauses})).collect::<Vec<_>>()})
+        json!({"parsed_selectors": c.parse_sels, "instances": c.insts.iter().map(|i| json!({"input": show(&i.input), "cuts": i.cuts, "cfg": i.cfg.to_json(), "pauses": i.pauses})).collect::<Vec<_>>()})
     }
 }
